@@ -297,7 +297,7 @@ def add_core(U):
          spec="""
     // the certificate was verified (or assembled from verified votes) before a block is built on it
     requires commit_qc.valid(old(self).g(), old(self).config.epoch, &old(self).config.validators),
-    ensures final(self).snapshot() == old(self).snapshot(), final(self).config == old(self).config,
+    ensures final(self).snapshot() == old(self).snapshot(), final(self).config == old(self).config, final(self).votes() == old(self).votes(),
             final(self).verif_persisted == old(self).verif_persisted, final(self).verif_sent == old(self).verif_sent,
 """)
     U.fn(F_MOD, SM + " :: fn process_commit_qc", wrap=SM, ret="r", header_subs=HDR, rules_=RULES, subs=PATHS,
@@ -309,6 +309,7 @@ def add_core(U):
         final(self).config == old(self).config, final(self).view_number == old(self).view_number, final(self).phase == old(self).phase,
         final(self).high_vote == old(self).high_vote, final(self).high_timeout_qc == old(self).high_timeout_qc,
         final(self).verif_persisted == old(self).verif_persisted, final(self).verif_sent == old(self).verif_sent,
+        final(self).votes() == old(self).votes(),
         final(self).certs_valid(),
         // adopted iff strictly newer (by view); otherwise the held certificate is untouched -- in all cases, also on an internal error
         final(self).high_commit_qc == (if old(self).commit_view() < qc.message.view.number.0 { Some(*qc) } else { old(self).high_commit_qc }),
@@ -330,6 +331,7 @@ def add_core(U):
         final(self).config == old(self).config, final(self).view_number == old(self).view_number, final(self).phase == old(self).phase,
         final(self).high_vote == old(self).high_vote,
         final(self).verif_persisted == old(self).verif_persisted, final(self).verif_sent == old(self).verif_sent,
+        final(self).votes() == old(self).votes(),
         final(self).certs_valid(),
         final(self).commit_view() >= old(self).commit_view(), final(self).timeout_view() >= old(self).timeout_view(),
         r.is_err() ==> final(self).high_commit_qc.is_some() && final(self).high_timeout_qc == old(self).high_timeout_qc,
@@ -435,7 +437,7 @@ impl StateMachine {
              view.0 > old(self).view_number.0,
              // ... and only when it holds a valid certificate for the preceding view (or a later one)
              old(self).max_cert_view() >= view.0 - 1,
-    ensures final(self).config == old(self).config, final(self).view_number == view,
+    ensures final(self).config == old(self).config, final(self).view_number == view, final(self).votes() == old(self).votes(),
             final(self).high_vote == old(self).high_vote, final(self).high_commit_qc == old(self).high_commit_qc,
             final(self).high_timeout_qc == old(self).high_timeout_qc, final(self).wf(),
             r.is_ok() ==> final(self).phase == Phase::Prepare
@@ -449,7 +451,7 @@ impl StateMachine {
                         AFTER_BACKUP, send_monitor(2)],
          spec="""
     requires old(self).wf(),
-    ensures final(self).config == old(self).config, final(self).view_number == old(self).view_number,
+    ensures final(self).config == old(self).config, final(self).view_number == old(self).view_number, final(self).votes() == old(self).votes(),
             final(self).high_vote == old(self).high_vote, final(self).high_commit_qc == old(self).high_commit_qc,
             final(self).high_timeout_qc == old(self).high_timeout_qc, final(self).wf(),
             final(self).phase == Phase::Timeout,       // after a timeout vote no commit vote can follow in this view
@@ -465,7 +467,7 @@ impl StateMachine {
         match &message.justification {""")],
          spec="""
     requires old(self).wf(),
-    ensures final(self).config == old(self).config, final(self).wf(),
+    ensures final(self).config == old(self).config, final(self).wf(), final(self).votes() == old(self).votes(),
             final(self).view_number.0 >= old(self).view_number.0,
             final(self).commit_view() >= old(self).commit_view(), final(self).timeout_view() >= old(self).timeout_view(),
             final(self).high_vote == old(self).high_vote,
@@ -544,7 +546,7 @@ impl StateMachine {
         let (implied_block_number, implied_block_hash) = message""")],
          spec="""
     requires old(self).wf(),
-    ensures final(self).config == old(self).config, final(self).wf(),
+    ensures final(self).config == old(self).config, final(self).wf(), final(self).votes() == old(self).votes(),
             final(self).view_number.0 >= old(self).view_number.0,
             final(self).commit_view() >= old(self).commit_view(), final(self).timeout_view() >= old(self).timeout_view(),
             r.is_ok() ==> old(self).prop_accept(&signed_message)
@@ -561,13 +563,91 @@ impl StateMachine {
 """)
 
 
+CACHE_PRELUDE = r"""
+#[verifier::external] impl core::fmt::Debug for CommitQCAddError { fn fmt(&self, f: &mut core::fmt::Formatter<'_>) -> core::fmt::Result { Ok(()) } }     // derive(Debug), needed by .expect()
+#[verifier::external] impl core::fmt::Debug for TimeoutQCAddError { fn fmt(&self, f: &mut core::fmt::Formatter<'_>) -> core::fmt::Result { Ok(()) } }
+// ---------------- vote caches of the replica (R-type: nested BTreeMaps as finite maps, A1) ----------------
+impl ViewsCache {
+    pub uninterp spec fn view(&self) -> Map<PublicKey, ViewNumber>;            // latest view each validator voted in
+    #[verifier::external_body] pub fn insert(&mut self, k: PublicKey, v: ViewNumber) -> (r: Option<ViewNumber>)
+        ensures final(self)@ == old(self)@.insert(k, v) { unimplemented!() }
+}
+#[verifier::external_body] pub struct ActiveViews { _p: u8 }                    // HashSet<&ViewNumber>
+impl ActiveViews { pub uninterp spec fn view(&self) -> Set<ViewNumber>; }
+// views_cache.values().collect::<HashSet<_>>()
+#[verifier::external_body]
+pub fn tmpl_views_values_collect(vc: &ViewsCache) -> (r: ActiveViews)
+    ensures forall|v: ViewNumber| #[trigger] r@.contains(v) <==> exists|k: PublicKey| vc@.contains_key(k) && #[trigger] vc@[k] == v
+{ unimplemented!() }
+impl CommitQcsCache {
+    pub uninterp spec fn view(&self) -> Map<(ViewNumber, ReplicaCommit), CommitQC>;     // (view, vote) -> partially collected certificate
+    // R-chain (anchor-exact): `.retain(|view_number, _| active_views.contains(view_number))`
+    #[verifier::external_body]
+    pub fn retain_views_in(&mut self, a: &ActiveViews)
+        ensures forall|k: (ViewNumber, ReplicaCommit)| #[trigger] final(self)@.contains_key(k) <==> old(self)@.contains_key(k) && a@.contains(k.0),
+                forall|k: (ViewNumber, ReplicaCommit)| final(self)@.contains_key(k) ==> #[trigger] final(self)@[k] == old(self)@[k],
+    { unimplemented!() }
+}
+// cache.entry(view).or_default().entry(vote).or_insert_with(F)  ->  &mut CommitQC
+#[verifier::external_body]
+pub fn tmpl_cqc_entry<'a, F: FnOnce() -> CommitQC>(c: &'a mut CommitQcsCache, v: ViewNumber, m: ReplicaCommit, f: F) -> (e: &'a mut CommitQC)
+    requires !old(c)@.contains_key((v, m)) ==> f.requires(()),
+    ensures old(c)@.contains_key((v, m)) ==> *e == old(c)@[(v, m)],
+            !old(c)@.contains_key((v, m)) ==> f.ensures((), *e),
+            final(c)@ == old(c)@.insert((v, m), *final(e)),
+{ unimplemented!() }
+// cache.remove(&view).unwrap().remove(vote).unwrap(): both unwraps succeed iff the entry is there
+#[verifier::external_body]
+pub fn tmpl_cqc_take(c: &mut CommitQcsCache, v: &ViewNumber, m: &ReplicaCommit) -> (q: CommitQC)
+    requires old(c)@.contains_key((*v, *m)),
+    ensures q == old(c)@[(*v, *m)],
+            forall|k: (ViewNumber, ReplicaCommit)| #[trigger] final(c)@.contains_key(k) <==> old(c)@.contains_key(k) && k.0 != *v,
+            forall|k: (ViewNumber, ReplicaCommit)| final(c)@.contains_key(k) ==> #[trigger] final(c)@[k] == old(c)@[k],
+{ unimplemented!() }
+// A3 (BLS aggregation, the only cryptographic axioms in the development): an aggregate built by adding individually valid
+// signatures of distinct committee members over one vote verifies over exactly those members
+pub uninterp spec fn built(q: CommitQC, vec: Seq<ValidatorInfo>) -> bool;
+pub broadcast axiom fn built_new(q: CommitQC, vec: Seq<ValidatorInfo>)
+    requires q.signature == agg_empty(), forall|i: int| 0 <= i < q.signers.0@.len() ==> !q.signers.0@[i],
+    ensures #[trigger] built(q, vec);
+pub axiom fn built_add(q0: CommitQC, q1: CommitQC, vec: Seq<ValidatorInfo>, i: int, sig: Signature)
+    requires built(q0, vec), 0 <= i < vec.len(), !q0.signers.0@[i], q1.signers.0@ == q0.signers.0@.update(i, true), q1.message == q0.message,
+             q1.signature == agg_add(q0.signature, sig), sig_ok(q0.message, vec[i].key, sig),
+    ensures built(q1, vec);
+pub broadcast axiom fn built_verifies(q: CommitQC, vec: Seq<ValidatorInfo>)
+    requires #[trigger] built(q, vec), q.signers.0@.len() == vec.len(),
+    ensures agg_ok(q.signature, sel_pairs(q.message, q.signers.0@, vec, vec.len() as int));
+impl StateMachine {
+    // invariant of the commit-vote bookkeeping, per cached certificate
+    pub open spec fn commit_entry_ok(&self, k: (ViewNumber, ReplicaCommit)) -> bool {
+        let s = &self.config.validators;
+        let q = self.commit_qcs_cache@[k];
+        &&& q.message == k.1 && k.1.view.number == k.0 && q.message.view.ok(self.g(), self.config.epoch)
+        &&& q.signers.0@.len() == s.vec@.len()
+        &&& built(q, s.vec@)
+        // one latest vote per validator: whoever is counted in a certificate of view v has its latest view >= v recorded
+        &&& forall|i: int| 0 <= i < s.vec@.len() && q.signers.0@[i] ==>
+                self.commit_views_cache@.contains_key(#[trigger] s.vec@[i].key) && self.commit_views_cache@[s.vec@[i].key].0 >= k.0.0
+        // certificates are kept only for views some validator is at (bounded by the committee, however many future-view messages arrive)
+        &&& exists|key: PublicKey| self.commit_views_cache@.contains_key(key) && #[trigger] self.commit_views_cache@[key] == k.0
+    }
+    pub open spec fn commit_inv(&self) -> bool {
+        forall|k: (ViewNumber, ReplicaCommit)| #[trigger] self.commit_qcs_cache@.contains_key(k) ==> self.commit_entry_ok(k)
+    }
+    pub open spec fn votes(&self) -> (CommitQcsCache, ViewsCache, TimeoutQcsCache, ViewsCache) {
+        (self.commit_qcs_cache, self.commit_views_cache, self.timeout_qcs_cache, self.timeout_views_cache)
+    }
+}
+"""
+
 VOTES_PRELUDE = r"""
 // ---------------- vote collection (on_commit / on_timeout): the cache bookkeeping is ABSTRACTED (R-stub, unverified statements) ----------------
 impl ViewsCache {
-    #[verifier::external_body] pub fn new() -> Self { unimplemented!() }
-    #[verifier::external_body] pub fn get(&self, k: &PublicKey) -> (r: Option<&ViewNumber>) { unimplemented!() }
+    #[verifier::external_body] pub fn new() -> (r: Self) ensures r@ == Map::<PublicKey, ViewNumber>::empty() { unimplemented!() }
+    #[verifier::external_body] pub fn get(&self, k: &PublicKey) -> (r: Option<&ViewNumber>)
+        ensures r.is_some() == self@.contains_key(*k), r.is_some() ==> *r.unwrap() == self@[*k] { unimplemented!() }
 }
-impl CommitQcsCache { #[verifier::external_body] pub fn new() -> Self { unimplemented!() } }
+impl CommitQcsCache { #[verifier::external_body] pub fn new() -> (r: Self) ensures r@ == Map::<(ViewNumber, ReplicaCommit), CommitQC>::empty() { unimplemented!() } }
 impl TimeoutQcsCache { #[verifier::external_body] pub fn new() -> Self { unimplemented!() } }
 impl StateMachine {
     // R-stub A: `let commit_qc = self.commit_qcs_cache.entry(..).or_default().entry(..).or_insert_with(..); commit_qc.add(..).expect(..);
@@ -593,6 +673,7 @@ impl StateMachine {
         requires sig_ok(signed_message.msg, signed_message.key, signed_message.sig),
                  signed_message.msg.valid(old(self).g(), old(self).config.epoch, &old(self).config.validators)
         ensures final(self).snapshot() == old(self).snapshot(), final(self).config == old(self).config,
+                final(self).commit_qcs_cache == old(self).commit_qcs_cache, final(self).commit_views_cache == old(self).commit_views_cache,
                 final(self).verif_persisted == old(self).verif_persisted, final(self).verif_sent == old(self).verif_sent,
     { unimplemented!() }
     #[verifier::external_body]
@@ -600,6 +681,7 @@ impl StateMachine {
         requires weight as int >= spec_quorum(old(self).config.validators.total_weight as nat)
         ensures qc.view.number == view, qc.valid(old(self).g(), old(self).config.epoch, &old(self).config.validators),
                 final(self).snapshot() == old(self).snapshot(), final(self).config == old(self).config,
+                final(self).commit_qcs_cache == old(self).commit_qcs_cache, final(self).commit_views_cache == old(self).commit_views_cache,
                 final(self).verif_persisted == old(self).verif_persisted, final(self).verif_sent == old(self).verif_sent,
     { unimplemented!() }
 }
@@ -607,6 +689,7 @@ impl StateMachine {
 
 
 def add_votes(U):
+    U.raw(CACHE_PRELUDE, label="prelude caches")
     U.raw(VOTES_PRELUDE, label="prelude votes")
     err_enum(U, F_COMMIT, "CommitError", None)
     err_enum(U, F_TIMEOUT, "TimeoutError", None)
@@ -625,15 +708,59 @@ def add_votes(U):
             (r.is_err() && !(r matches Err(%(E)s::Internal(_)))) ==> final(self).snapshot() == old(self).snapshot() && final(self).verif_sent == old(self).verif_sent,
 """
     U.fn(F_COMMIT, SM + " :: fn on_commit", wrap=SM, ret="r", header_subs=HDR + [("Result<(), Error>", "Result<(), CommitError>")], rules_=RULES,
-         regions=[("let commit_qc = self\n            .commit_qcs_cache\n            .entry", ".retain(|view_number, _| active_views.contains(view_number))",
-                   "let weight = self.stub_collect_commit(&signed_message);"),
-                  ("let commit_qc = self\n            .commit_qcs_cache\n            .remove", ".remove(message)",
-                   "let commit_qc = self.stub_consume_commit(message, Ghost(weight));")],
+         proof_at_start="broadcast use built_new, built_verifies;",
          subs=PATHS + [("Error::", "CommitError::", None), ("author.clone().into()", "Box::new(author.clone())   /* R-std */", None),
-                        ("if let Some(&view) = $E {", "if let Some(verif_view_ref) = $E { let view = *verif_view_ref;   /* R-refpat */")]
+                        ("if let Some(&view) = $E {", "if let Some(verif_view_ref) = $E { let view = *verif_view_ref;   /* R-refpat */"),
+                        ("let active_views: HashSet<_> =", "let active_views: ActiveViews ="),
+                        ("self.commit_qcs_cache\n            .retain(|view_number, _| active_views.contains(view_number));",
+                         "self.commit_qcs_cache.retain_views_in(&active_views);   /* R-chain (anchor-exact closure) */")]
               + r_try("CommitError", [(".wrap(())", 1), ("self.start_new_view(ctx, $V).await", 1)]),
-         post_subs=[("self.process_commit_qc(ctx, &commit_qc)", "proof { a7_commit_qc_bounded(commit_qc, self.g(), self.config.epoch, &self.config.validators); } self.process_commit_qc(ctx, &commit_qc)")],
-         spec=common_post % dict(E="CommitError"))
+         chains=[dict(recv="self\n            .commit_qcs_cache", methods=["entry", "or_default", "entry", "or_insert_with"],
+                      closures={3: dict(ty=[], ret="q: CommitQC",
+                                        spec="ensures q.message == *message, q.signature == agg_empty(), q.signers.0@.len() == self.config.validators.vec@.len(), "
+                                             "forall|i: int| 0 <= i < q.signers.0@.len() ==> !q.signers.0@[i]")},
+                      template="tmpl_cqc_entry(&mut self.commit_qcs_cache, {a0}, {a2}, {a3})", count=1),
+                 dict(recv="self.commit_views_cache", methods=["values", "collect"], template="tmpl_views_values_collect(&self.commit_views_cache)"),
+                 dict(recv="self\n            .commit_qcs_cache", methods=["remove", "unwrap", "remove", "unwrap"],
+                      template="tmpl_cqc_take(&mut self.commit_qcs_cache, {a0}, {a2})", count=1)],
+         post_subs=[("self.process_commit_qc(ctx, &commit_qc)", """proof {
+            assert(commit_qc == verif_q1);
+            // commit only on a quorum: the consumed certificate is valid (weight compared above, aggregate by the A3 axioms)
+            assert(commit_qc.valid(self.g(), self.config.epoch, &self.config.validators));
+            assert forall|k: (ViewNumber, ReplicaCommit)| #[trigger] self.commit_qcs_cache@.contains_key(k) implies self.commit_entry_ok(k) by {
+                assert(verif_s2.commit_qcs_cache@.contains_key(k)); assert(verif_s2.commit_entry_ok(k)); }
+            a7_commit_qc_bounded(commit_qc, self.g(), self.config.epoch, &self.config.validators);
+        }
+        self.process_commit_qc(ctx, &commit_qc)"""),
+                    ("let weight = commit_qc.signers.weight(&self.config.validators);", "let ghost verif_q1 = *commit_qc; let weight = commit_qc.signers.weight(&self.config.validators);"),
+                    ("self.commit_qcs_cache.retain_views_in(&active_views);", """self.commit_qcs_cache.retain_views_in(&active_views);
+        proof {
+            let k0 = (message.view.number, *message);
+            assert(self.commit_views_cache@[*author] == message.view.number);
+            assert(active_views@.contains(message.view.number));
+            assert(self.commit_qcs_cache@.contains_key(k0) && self.commit_qcs_cache@[k0] == verif_q1);
+            assert forall|k: (ViewNumber, ReplicaCommit)| #[trigger] self.commit_qcs_cache@.contains_key(k) implies self.commit_entry_ok(k) by {
+                if k == k0 { assert(self.commit_entry_ok(k0)); } else {
+                    assert(old(self).commit_qcs_cache@.contains_key(k));
+                    assert(old(self).commit_entry_ok(k));
+                    assert(self.commit_qcs_cache@[k] == old(self).commit_qcs_cache@[k]);
+                    assert(active_views@.contains(k.0));
+                }
+            }
+        }"""),
+                    ("let commit_qc = tmpl_cqc_take(", "let ghost verif_s2 = *self; proof { assert(verif_s2.commit_inv()); } let commit_qc = tmpl_cqc_take("),
+                    ("commit_qc\n            .add(", "let ghost verif_q0 = *commit_qc;   /* W-ghost */\n        commit_qc\n            .add("),
+                    (".expect(()); let weight" if False else ".expect(\"could not add message to CommitQC\");", """.expect("could not add message to CommitQC");
+        proof {   // the certificate stays an aggregate of individually valid signatures (A3 aggregation axiom)
+            let vec = self.config.validators.vec@;
+            let i = choose|i: int| 0 <= i < vec.len() && vec[i].key == signed_message.key && !verif_q0.signers.0@[i]
+                && #[trigger] commit_qc.signers.0@ == verif_q0.signers.0@.update(i, true);
+            built_add(verif_q0, *commit_qc, vec, i, signed_message.sig);
+        }""")],
+         spec=(common_post % dict(E="CommitError")).replace("    requires old(self).wf(),", "    requires old(self).wf(), old(self).commit_inv(),")
+              + "            // the vote bookkeeping invariant (one latest vote per validator, certificates only for views some validator is at) is preserved\n"
+                "            final(self).commit_inv(),\n"
+                "            final(self).timeout_qcs_cache == old(self).timeout_qcs_cache, final(self).timeout_views_cache == old(self).timeout_views_cache,\n")
     U.fn(F_TIMEOUT, SM + " :: fn on_timeout", wrap=SM, ret="r", header_subs=HDR + [("Result<(), Error>", "Result<(), TimeoutError>")], rules_=RULES,
          regions=[("let timeout_qc = self\n            .timeout_qcs_cache\n            .entry", ".retain(|view_number, _| active_views.contains(view_number))",
                    "let weight = self.stub_collect_timeout(&signed_message);"),
@@ -678,7 +805,9 @@ pub open spec fn snap_default() -> Snap {
         // and starts from the initial state otherwise
         r matches Ok(sm) ==> sm.config == config && (match config.engine_manager.stored_state() {
             ReplicaState::V2(b) => sm.snapshot() == (if b.epoch == config.epoch { snap_of(b) } else { snap_default() })
-        }) && sm.verif_persisted@ == sm.snapshot() && sm.verif_sent@.len() == 0,
+        }) && sm.verif_persisted@ == sm.snapshot() && sm.verif_sent@.len() == 0
+            // the vote bookkeeping starts empty (its invariant holds trivially)
+            && sm.commit_qcs_cache@ == Map::<(ViewNumber, ReplicaCommit), CommitQC>::empty() && sm.commit_inv(),
 """)
     U.fn(F_PROPOSER, "fn create_proposal", ret="r", rules_=RULES,
          header_subs=[("ctx::Ctx", "Ctx"), ("ctx::Result<validator::v2::LeaderProposal>", "Result<LeaderProposal, CtxError>"), ("validator::v2::", "", None)],
